@@ -422,6 +422,47 @@ func (in *Instance) EndBlock() *Panic {
 // Validator lifecycle: app.go registers the mhub2 keeper's staking hooks with x/staking, so the transitions of the
 // scripted staking table that x/staking announces through hooks are announced to the keeper under test as well.
 
+func (in *Instance) valAddrs(i int) (sdk.ValAddress, sdk.ConsAddress, sdk.AccAddress) {
+	oper, _ := sdk.ValAddressFromBech32(in.Staking.Vals[i].Oper)
+	return oper, sdk.ConsAddress(oper), sdk.AccAddress(oper)
+}
+
+// ValSetPower: a delegation to validator i changes its stake (x/staking Delegate / Unbond).
+func (in *Instance) ValSetPower(i int, power int64) {
+	oper, _, del := in.valAddrs(i)
+	h := in.Hub.Hooks()
+	h.BeforeDelegationSharesModified(in.Ctx(), del, oper)
+	in.Staking.Vals[i].Power = power
+	h.AfterDelegationModified(in.Ctx(), del, oper)
+}
+
+// ValUnbond: validator i leaves the bonded set (x/staking bondedToUnbonding).
+func (in *Instance) ValUnbond(i int) {
+	oper, cons, _ := in.valAddrs(i)
+	was := in.Staking.Vals[i].Bonded
+	in.Staking.Vals[i].Bonded = false
+	if was {
+		in.Hub.Hooks().AfterValidatorBeginUnbonding(in.Ctx(), cons, oper)
+	}
+}
+
+// ValRebond: validator i enters the bonded set (x/staking bondValidator).
+func (in *Instance) ValRebond(i int) {
+	oper, cons, _ := in.valAddrs(i)
+	was := in.Staking.Vals[i].Bonded
+	in.Staking.Vals[i].Bonded = true
+	if !was {
+		in.Hub.Hooks().AfterValidatorBonded(in.Ctx(), cons, oper)
+	}
+}
+
+// ValJail: x/slashing slashes and jails validator i in its BeginBlocker.
+func (in *Instance) ValJail(i int) {
+	oper, _, _ := in.valAddrs(i)
+	in.Hub.Hooks().BeforeValidatorSlashed(in.Ctx(), oper, sdk.NewDecWithPrec(1, 2))
+	in.Staking.Vals[i].Jailed = true
+}
+
 // ValLeave: validator i undelegates everything; its unbonding period is over and x/staking deletes the record.
 func (in *Instance) ValLeave(i int) {
 	v := &in.Staking.Vals[i]
